@@ -123,6 +123,12 @@ pub enum FSrc {
     Neg(usize),
     Zero,
     One,
+    /// the inherent sampler `rand` (wide sample, reduce) on the simulated RNG
+    RandWide(RngPlan),
+    /// Distribution<F> for Standard / UniformRand (rejection sampler) on the simulated RNG
+    SampleStd(RngPlan),
+    /// From<BigInt<N>> of arbitrary limbs (LE hex, reduced)
+    FromBigIntReduce(Hex),
 }
 
 #[derive(Clone, Debug, Serialize, Deserialize, PartialEq, Eq)]
